@@ -141,13 +141,14 @@ def _get_handshake_headers(
 def _get_resp_headers(sock, success_statuses: tuple = SUCCESS_STATUSES) -> tuple:
     status, resp_headers, status_message = read_headers(sock)
     if status not in success_statuses:
-        content_len = resp_headers.get("content-length")
-        if content_len:
-            response_body = sock.recv(
-                int(content_len)
-            )  # read the body of the HTTP error message response and include it in the exception
-        else:
-            response_body = None
+        # read (the beginning of) the body of the HTTP error message response and include it in the exception
+        response_body = None
+        try:
+            content_len = int(resp_headers.get("content-length") or 0)
+        except ValueError:
+            content_len = 0
+        if content_len > 0:
+            response_body = sock.recv(min(content_len, 16384))
         raise WebSocketBadStatusException(
             f"Handshake status {status} {status_message} -+-+- {resp_headers} -+-+- {response_body}",
             status,
